@@ -190,6 +190,8 @@ class Runner:
                 sm.bind_events_to(ent["target"])
         if op.get("custom_attr"):
             sm.custom_attr = {"n": [tag, 1]}
+        if op.get("model_holds_machine") and ent.get("model") is not None:
+            ent["model"].owner_sm = sm
         if op.get("bind_model") and ent.get("model") is not None:
             with warnings.catch_warnings():
                 warnings.simplefilter("ignore")
@@ -376,7 +378,11 @@ class Runner:
             SIM.fields[tag] = ent["field"]
             SIM.rec(k="clone", i=op["inst"], to=tag, info={"shallow": True, "model_shared": c.model is sm.model})
             return None
-        if op["how"] == "deepcopy":
+        if op.get("via_model") and ent.get("model") is not None and getattr(ent["model"], "owner_sm", None) is sm:
+            # the machine is reached through its own model (model.owner_sm <-> sm.model): copy the model
+            m2 = copy.deepcopy(ent["model"]) if op["how"] == "deepcopy" else pickle.loads(pickle.dumps(ent["model"]))
+            c = m2.owner_sm
+        elif op["how"] == "deepcopy":
             c = copy.deepcopy(sm)
         else:
             c = pickle.loads(pickle.dumps(sm))
